@@ -157,6 +157,16 @@ Theorem C04_addr_tails_consistent : addr_tails_ok free_sigs addr_tails = true.
 Proof. vm_compute. reflexivity. Qed.
 Print Assumptions C04_addr_tails_consistent.
 
+(*    - a writer that may be handed a RE-USED slot (every X = cgi_*_address(CG_MODE_WRITE ...) writer: single children such
+        as ReferenceState_t, ConvergenceHistory_t, FlowEquationSet_t and its models, RotatingCoordinates_t, units,
+        exponents ..., and the node-context multi-sibling writers) sets every field of the struct again, or its count,
+        or memsets it -- so nothing of the replaced entity survives in the session (seeded change C04-2: dropping
+        `state->data_class = DataClassNull` from cg_state_write makes this false).  [reinit_open_gaps] names the one
+        place where the current sources do not (cg_units_write, finding overwrite-keeps-attribute:DimensionalUnits_t:un). *)
+Theorem C04_overwrite_reinitialises_every_field : reinit_ok structs reinit_rows = true.
+Proof. vm_compute. reflexivity. Qed.
+Print Assumptions C04_overwrite_reinitialises_every_field.
+
 (*    - reading a file orders by name exactly the zones and the particle zones of a base (the two qsort calls of
         cgi_read_base with the strcmp comparator; cgi_sort_names has no caller): the [cgns_sorted] of the model. *)
 Theorem C04_sorting_consistent : sorting_ok sort_calls sort_comparator sort_names_callers = true.
